@@ -90,7 +90,6 @@ any of the arguments corresponding to %s is a null pointer.
 EXPORT int vfwscanf_s(FILE *restrict stream, const wchar_t *restrict fmt,
                       va_list ap)
 {
-    wchar_t *p;
     int ret;
 
     if (unlikely(stream == NULL)) {
@@ -113,29 +112,12 @@ EXPORT int vfwscanf_s(FILE *restrict stream, const wchar_t *restrict fmt,
     }
 #endif
 
-#if defined(HAVE_WCSSTR) || !defined(SAFECLIB_DISABLE_EXTENSIONS)
-    if (unlikely((p = wcsstr((wchar_t *)fmt, L"%n")))) {
-        if ((p - fmt == 0) || *(p - 1) != L'%') {
-            invoke_safe_str_constraint_handler("vfwscanf_s: illegal %n", NULL,
-                                               EINVAL);
-            errno = EINVAL;
-            return EOF;
-        }
+    if (unlikely(safec_wfmt_has_n(fmt))) {
+        invoke_safe_str_constraint_handler("vfwscanf_s: illegal %n", NULL,
+                                           EINVAL);
+        errno = EINVAL;
+        return EOF;
     }
-#elif defined(HAVE_WCSCHR)
-    if (unlikely((p = wcschr(fmt, flen, L'n')))) {
-        /* at the beginning or if inside, not %%n */
-        if (((p - fmt >= 1) && *(p - 1) == L'%') &&
-            ((p - fmt == 1) || *(p - 2) != L'%')) {
-            invoke_safe_str_constraint_handler("vfwscanf_s: illegal %n", NULL,
-                                               EINVAL);
-            errno = EINVAL;
-            return EOF;
-        }
-    }
-#else
-#error need wcsstr or wcschr
-#endif
 
     errno = 0;
     ret = vfwscanf(stream, fmt, ap);
